@@ -1223,6 +1223,175 @@ def rule_compose(chk, idx):
 
 
 # ---------------------------------------------------------------------------------------------------
+# rule 8: the am/pm-ambiguity guard of the time parsers, tabulated
+
+def _branch_bodies(fn):
+    """statement lists that form one branch: if-bodies, and else-bodies that are not an `elif`"""
+    for n in own_walk(fn):
+        if isinstance(n, ast.If):
+            yield n.body
+            if n.orelse and not (len(n.orelse) == 1 and isinstance(n.orelse[0], ast.If)):
+                yield n.orelse
+
+
+def ampm_table(fn, node, ev, idx, mod, cls):
+    """tabulate the path condition of an am/pm comment write over hour 0..24 x the boolean flags it mentions.
+    -> None when the condition is not a function of one int and boolean flags only, else (problems, detail)"""
+    from .c09 import Interp, Obj, Opaque, Unreadable, PyRaise
+    import itertools
+    par = parents_of(fn)
+    pos, neg = path_condition(node, par, fn)
+    if not pos and not neg:
+        return None
+    defs = local_defs(fn)
+    ints = intish_names(fn)
+    int_atoms, flags = {}, set()      # key -> ('name', id) | ('attr', root, attr)
+    for c in pos + neg:
+        for n in ast.walk(c):
+            if isinstance(n, ast.Compare):
+                terms = [n.left] + list(n.comparators)
+                if any(isinstance(ev(t), int) and not isinstance(ev(t), bool) for t in terms):
+                    for t in terms:
+                        if isinstance(t, ast.Name):
+                            int_atoms[t.id] = ('name', t.id)
+                        elif isinstance(t, ast.Attribute) and isinstance(t.value, ast.Name) and ev(t) is NOVAL:
+                            int_atoms[ast.unparse(t)] = ('attr', t.value.id, t.attr)
+    for c in pos + neg:
+        for n in ast.walk(c):
+            if isinstance(n, ast.Name) and n.id not in int_atoms and not any(a[0] == 'attr' and a[1] == n.id for a in int_atoms.values()):
+                vals = defs.get(n.id, [])
+                if vals and any((isinstance(v, ast.Constant) and isinstance(v.value, bool)) or isinstance(v, ast.Compare) for v in vals) \
+                        and not any(isinstance(v, ast.Constant) and not isinstance(v.value, bool) for v in vals):
+                    flags.add(n.id)
+                elif ev(n) is NOVAL:
+                    return None          # depends on something that is neither the hour nor a boolean flag
+            elif isinstance(n, ast.Call):
+                return None
+            elif isinstance(n, ast.Attribute) and ev(n) is NOVAL and ast.unparse(n) not in int_atoms:
+                return None
+    if len(int_atoms) != 1:
+        return None
+    (hkey, hatom), = int_atoms.items()
+    if hatom[0] == 'name' and hatom[1] not in ints:
+        return None
+    flags = sorted(flags)
+    # flags that say "am/pm (or a fixed part of the day) was stated": set True in a branch that shifts the hour by 12 or pins it
+    relevant = set()
+    if hatom[0] == 'name':
+        h = hatom[1]
+        for body in _branch_bodies(fn):
+            adjusts = False
+            trues = set()
+            for st in body:
+                for n in ast.walk(st):
+                    if isinstance(n, ast.AugAssign) and isinstance(n.target, ast.Name) and n.target.id == h and ev(n.value) == 12:
+                        adjusts = True
+                    if isinstance(n, ast.Assign) and len(n.targets) == 1 and isinstance(n.targets[0], ast.Name):
+                        if n.targets[0].id == h and isinstance(ev(n.value), int) and not isinstance(ev(n.value), bool):
+                            adjusts = True
+                        if isinstance(n.value, ast.Constant) and n.value.value is True:
+                            trues.add(n.targets[0].id)
+            if adjusts:
+                relevant |= trues
+    all_flags = sorted(set(flags) | relevant)
+    sets = {}
+    for combo in itertools.product((False, True), repeat=len(all_flags)):
+        hours = []
+        for hour in range(0, 25):
+            env = dict(zip(all_flags, combo))
+            if hatom[0] == 'name':
+                env[hatom[1]] = hour
+            else:
+                o = Obj()
+                o.attrs[hatom[2]] = hour
+                env[hatom[1]] = o
+            it = Interp(idx)
+            try:
+                vals = [it.eval(c, env, (mod, cls, fn)) for c in pos] + [it.eval(c, env, (mod, cls, fn)) for c in neg]
+            except (Unreadable, PyRaise):
+                return None
+            if any(isinstance(v, Opaque) for v in vals):
+                return None
+            if all(vals[:len(pos)]) and not any(vals[len(pos):]):
+                hours.append(hour)
+        sets[combo] = hours
+    want = list(range(1, 13))
+    problems = []
+    for combo, hours in sorted(sets.items()):
+        stated = [f for f, v in zip(all_flags, combo) if v and f in relevant]
+        if stated and hours:
+            problems.append('the comment is set although %s is true (hours %s)' % ('/'.join(stated), _ranges(hours)))
+        elif hours and hours != want:
+            extra = sorted(set(hours) - set(want))
+            missing = sorted(set(want) - set(hours))
+            problems.append('the comment is set for hour(s) %s%s' % (
+                _ranges(hours), '; not ambiguous: %s' % extra if extra else '') + ('; missing %s' % missing if missing else ''))
+    if not any(h == want for h in sets.values()) and not problems:
+        problems.append('no flag assignment sets the comment for exactly the hours 1..12')
+    nset = sum(1 for h in sets.values() if h)
+    detail = 'comment set for hours %s under %d of %d flag assignment(s); %d stated-am/pm flag(s) must be false' % (
+        sorted({_ranges(h) for h in sets.values() if h}) or 'none', nset, len(sets), len(relevant))
+    return sorted(set(problems)), detail
+
+
+def _ranges(hours):
+    if not hours:
+        return '-'
+    out, start, prev = [], hours[0], hours[0]
+    for h in hours[1:] + [None]:
+        if h is None or h != prev + 1:
+            out.append('%d..%d' % (start, prev) if start != prev else '%d' % start)
+            start = h
+        prev = h
+    return ','.join(out)
+
+
+TABLE_CONTROL = """
+def match_to_time(self, m):
+    hour = 0
+    has_am = False
+    has_pm = False
+    if pm:
+        if hour < 12:
+            hour += 12
+        has_pm = True
+    if hour <= 12 and not (has_am or has_pm):
+        result.comment = 'ampm'
+"""
+
+
+def rule_ampm_table(chk, idx):
+    rid = 'C07.ampm-table'
+    chk.rule(rid, 'time parsers: tabulated over hour 0..24 x flags, the AM/PM comment is set exactly for hours 1..12 and never '
+                  'when am/pm or a fixed part of the day was stated', floor=2, control=True)
+    cfn = ast.parse(TABLE_CONTROL).body[0]
+    cnode = [n for n in ast.walk(cfn) if isinstance(n, ast.Assign) and isinstance(n.targets[0], ast.Attribute)][0]
+    cmod = idx.mod(PKG + '.base_time')
+    ctl = ampm_table(cfn, cnode, make_evalc(idx, cmod), idx, cmod, None)
+    chk.control(rid, bool(ctl and ctl[0]))
+    anchored = False
+    for mod, cls, fn, node, kind, ev in ampm_writers(idx):
+        if kind != 'const' or cls is None:
+            continue
+        if parser_type_of(idx, cls, lambda k: make_evalc(idx, k.mod, k)) != 'time':
+            continue
+        res = ampm_table(fn, node, ev, idx, mod, cls)
+        construct = '%s.%s' % (cls.name, fn.name)
+        if res is None:
+            chk.observe('%s:%d %s: AM/PM comment guard is not a function of one hour and boolean flags; not tabulated'
+                        % (rel(mod.path), node.lineno, construct))
+            continue
+        problems, detail = res
+        if cls.name == 'BaseTimeParser' and fn.name == 'match_to_time':
+            anchored = True
+        chk.judge(not problems, rid, mod.path, construct, detail, '; '.join(problems) +
+                  ' - only an hour 1..12 written without am/pm has two readings twelve hours apart', node.lineno)
+        chk.consulted(mod.path)
+    if not anchored:
+        raise AnalysisError('BaseTimeParser.match_to_time: the AM/PM comment guard could not be tabulated')
+
+
+# ---------------------------------------------------------------------------------------------------
 
 def run(chk):
     chk.explanation = ('contradiction rule on the time decoders (an int decoded from an hour/minute/second group must not be '
@@ -1235,6 +1404,7 @@ def run(chk):
     rule_to_pm(chk, idx)
     rule_pad(chk, idx)
     rule_compose(chk, idx)
+    rule_ampm_table(chk, idx)
     chk.assume('RegExpUtility.get_group / get_group_list / Match.group return the text of the named group; group names '
                'hour/min/sec denote digit groups whose language contains 0 and 00 (the property quantifies over 00:00..23:59:59)')
     chk.assume('callee identity is by attribute name on DateTimeFormatUtil (to_pm, all_str_to_pm); no monkey patching')
